@@ -171,7 +171,7 @@ CLAIMED = {
              "under Bt reversal (parity lemma per component); the sign decision is invariant under reflection with y reversed; the connection tables of upper single / double null are the "
              "reflected tables of the lower ones, the connected double null is self-mirror (vm_compute on the generated finite tables); single-null branch-cut integers reflect.  Oracles on "
              "pairs of complete grids: mirror pairs region by region (R, -Z, bpsign, 30 field magnitudes at 1e-8 m / 2e-6), reversal pairs (every output field up to the expected sign), "
-             "options vs directly transformed inputs (identical). Reflection exchanges the two ends of every region: the four blending-range expressions of combineSfuncs (REGENERATED) are proved symmetric under lower <-> upper with *_inner inside and *_outer outside the separatrix, and the metamorphic range-parameter oracle of C10 runs here on lsn and usn. A non-orthogonal single-null mirror pair and an up-down symmetric steep-wall non-orthogonal double null compared with itself exercise the two near-identical wall-point blocks against each other.",
+             "options vs directly transformed inputs (identical). Reflection exchanges the two ends of every region: the four blending-range expressions of combineSfuncs (REGENERATED) are proved symmetric under lower <-> upper with *_inner inside and *_outer outside the separatrix, and the metamorphic range-parameter oracle of C10 runs here on lsn and usn. A non-orthogonal single-null mirror pair and an up-down symmetric steep-wall non-orthogonal double null compared with itself exercise the two near-identical wall-point blocks against each other. The RUNNING fields are covered too: theorems C16_distance_under_y_reversal and C16_integral_under_y_reversal (poloidal distance and the zShift trapezoid integral of a contour traversed the other way are total minus reversed; generic lemma on accumulated weights) and, on every mirror pair, poloidal_distance and zShift plus their reversed mirror values are constant along each flux surface (observed 2e-9).",
         note="Trusted: Coq kernel + Reals axioms; translators; that contour following is deterministic in its inputs is what the pair comparison monitors.  The radial grid line through "
              "an X-point is compared at 5e-4 m (each region starts slightly off the X-point and the join takes the upper region's values: documented in fillRZ).",
         technique="Coq proofs on translated formulas and generated finite tables + pairwise grid oracle", design="6/C16"),
